@@ -217,12 +217,139 @@ pub static UNJUDGED_NAMES: std::sync::LazyLock<std::collections::HashMap<&'stati
 /// 'static names for class counters
 pub static FTAB_NAMES: std::sync::LazyLock<Vec<&'static str>> = std::sync::LazyLock::new(|| crate::ftab::FTAB.iter().map(|d| d.name).collect());
 
+// ---------------------------------------------------------------- small-scope enumeration over wide pools
+
+fn mix64(mut x: u64) -> u64 {
+    x = x.wrapping_add(0x9e3779b97f4a7c15);
+    x = (x ^ (x >> 30)).wrapping_mul(0xbf58476d1ce4e5b9);
+    x = (x ^ (x >> 27)).wrapping_mul(0x94d049bb133111eb);
+    x ^ (x >> 31)
+}
+
+/// replayable wrapper: a C04.pools case is a Case04 and is judged like any other
+pub struct C04Pools;
+impl Check for C04Pools {
+    type Case = Case04;
+    fn name(&self) -> &'static str {
+        "C04.pools"
+    }
+    fn cases(&self, _t: Tier) -> u64 {
+        0
+    }
+    fn strategy(&self, _t: Tier) -> BoxedStrategy<Case04> {
+        arb_case04(1)
+    }
+    fn check(&self, c: &Case04) -> CaseResult {
+        C04Eval.check(c)
+    }
+}
+
+pub fn run_pools(ctx: &mut Ctx) {
+    use crate::pools::*;
+    let cap: u64 = ((ctx.tier.pick(1500u64, 60_000u64) as f64) * ctx.scale).ceil() as u64;
+    let names = pure_function_names();
+    // (signature, slots, product, cases)
+    let mut plan: Vec<(usize, Vec<Slot>, u64, u64)> = Vec::new();
+    for (si, s) in SIGS.iter().enumerate() {
+        if !names.contains(&s.f) {
+            continue;
+        }
+        if let Some(sl) = slots(si) {
+            let prod: u64 = sl.iter().map(|x| slot_len(x) as u64).fold(1u64, |a, b| a.saturating_mul(b));
+            let n = prod.min(cap);
+            plan.push((si, sl, prod, n));
+        }
+    }
+    let total: u64 = plan.iter().map(|p| p.3).sum();
+    let complete = plan.iter().filter(|p| p.2 <= cap).count();
+    let space = format!("{} signatures of {} functions called with literal arguments from the wide pools (harness/src/pools.rs): the whole product of the pools for {} signatures, a seeded sample of {} argument tuples for each of the others", plan.len(), names.len(), complete, cap);
+    let seed = ctx.seed;
+    let record = r#"{"n":1.5,"m":2,"i":1,"j":0,"s":"a","t":"ab","b":true,"c":false,"z":null,"an":[1,2],"as":["a"],"ab":[true],"ao":[{"k":"a","v":1,"g":"x"}],"aa":[[1]],"o":{"a":1},"os":{"a":"x"},"e":[],"eo":{},"ns":"1","nt":"2.5","ans":["1"],"re":"a+","tf":"%Y","js":"[1]"}"#;
+    run_enum(ctx, "C04.pools", total, &space, |idx| {
+        let mut rest = idx;
+        let mut pi = 0;
+        while rest >= plan[pi].3 {
+            rest -= plan[pi].3;
+            pi += 1;
+        }
+        let (si, sl, prod, _) = &plan[pi];
+        let mut picks = Vec::with_capacity(sl.len());
+        if *prod <= cap {
+            let mut r = rest;
+            for s in sl.iter() {
+                let l = slot_len(s) as u64;
+                picks.push((r % l) as usize);
+                r /= l;
+            }
+        } else {
+            let mut h = mix64(seed ^ mix64(*si as u64 ^ (rest << 16)));
+            for s in sl.iter() {
+                h = mix64(h);
+                picks.push((h % slot_len(s) as u64) as usize);
+            }
+        }
+        let e = build(*si, sl, &picks);
+        let h = mix64(idx ^ seed);
+        let case = Case04 { e, vars: vec![], macros: vec![], priors: vec![], inputs: vec![record.to_string()], spell: Spell { alias: h & 1 == 1, sep: ((h >> 1) % 3) as u8, sugar: false, pad: false, seed: h } };
+        let res = C04Eval.check(&case);
+        (Box::new(move || serde_json::to_value(&case).unwrap()), res)
+    });
+}
+
+/// `!=` is the negation of `=` (and "!=" of "=") on every pair, also where the documentation
+/// leaves the value of `=` open (objects that differ in member order, integers beyond 2^53
+/// against floats): a metamorphic relation that needs no expected value.
+pub fn run_negation(ctx: &mut Ctx) {
+    use crate::pools::*;
+    let mut vals = any_wide();
+    vals.extend(obj_num_wide());
+    vals.extend(obj_str_wide());
+    vals.extend(obj_mixed_wide());
+    vals.extend(arr_obj_wide().into_iter().take(7));
+    vals.sort();
+    vals.dedup();
+    let nas = nas_wide();
+    let (n, m) = (vals.len() as u64, nas.len() as u64);
+    let total = n * n + m * m;
+    let space = format!("all {}^2 pairs of the value pool for = / != and all {}^2 pairs of the number-as-string pool for \"=\" / \"!=\"", n, m);
+    run_enum(ctx, "C04.negation", total, &space, |idx| {
+        let (a, b, eqf, nef) = if idx < n * n { (&vals[(idx / n) as usize], &vals[(idx % n) as usize], "=", "!=") } else { let j = idx - n * n; (&nas[(j / m) as usize], &nas[(j % m) as usize], "\"=\"", "\"!=\"") };
+        let args = vec![format!("--select=({} {} {}) = e", eqf, a, b), format!("--select=({} {} {}) = n", nef, a, b), format!("--select=({} {} {}) = r", eqf, b, a)];
+        let o = run(&args, b"null");
+        let case = json!({"a": a, "b": b, "args": args});
+        let mk = move || case.clone();
+        if !o.res.is_ok() {
+            return (Box::new(mk), CaseResult::Fail(format!("jawk failed: {} (args {:?})", o.res.short(), args)));
+        }
+        let row = match parse_one(o.stdout.strip_suffix(b"\n").unwrap_or(&o.stdout)) {
+            Ok(r) => r,
+            Err(e) => return (Box::new(mk), CaseResult::Fail(format!("unreadable output {}: {}", esc_trunc(&o.stdout, 200), e))),
+        };
+        let (e, ne, r) = (row.get("e").cloned(), row.get("n").cloned(), row.get("r").cloned());
+        let res = match (&e, &ne) {
+            (Some(RVal::Bool(x)), Some(RVal::Bool(y))) if x != y => {
+                if matches!(&r, Some(RVal::Bool(z)) if z == x) {
+                    CaseResult::Pass(Info::new(a != b).class_if(*x, "equal").class_if(!*x, "different"))
+                } else {
+                    CaseResult::Fail(format!("({} a b) = {:?} but ({} b a) = {:?} for a = {} b = {}", eqf, e, eqf, r, a, b))
+                }
+            }
+            (None, None) => CaseResult::Pass(Info::new(false).class("both_nothing")),
+            _ => CaseResult::Fail(format!("({} a b) = {:?} but ({} a b) = {:?}: not each other's negation, for a = {} b = {}", eqf, e, nef, ne, a, b)),
+        };
+        (Box::new(mk), res)
+    });
+}
+
 pub fn run_all(ctx: &mut Ctx) {
-    ctx.rule = "expressions whose root is one of the 108 pure functions (stratified: each function and each of its signatures equally often), depth 1, 3 or 5, type-directed arguments with 3/16 ill-typed, boundary-biased sizes (N = size-1, size, size+1, 0), literals of all six types incl. empty/singleton collections and non-ASCII strings, extractors . .k #i ^, :var, @macro (--set), /name/ (earlier selections), printed with canonical names or aliases and space/comma separators x 1..3 inputs (schema records with absent and wrong-typed fields, or arbitrary values). Oracle: the reference evaluator written from the function documentation; unspecified points (string length unit for non-ASCII, order of different objects, tail, float indices, empty separators, ...) are not judged, floating-point results within relative 1e-12, member order of records synthesised by entries/indexed/fold/zip/cross not compared. non-trivial = at least one input was judged (expected value or expected nothing)".into();
+    ctx.rule = "expressions whose root is one of the 108 pure functions (stratified: each function and each of its signatures equally often), depth 1, 3 or 5, type-directed arguments with 3/16 ill-typed, boundary-biased sizes (N = size-1, size, size+1, 0), literals of all six types incl. empty/singleton collections and non-ASCII strings, extractors . .k #i ^, :var, @macro (--set), /name/ (earlier selections), printed with canonical names or aliases and space/comma separators x 1..3 inputs (schema records with absent and wrong-typed fields, or arbitrary values). Oracle: the reference evaluator written from the function documentation; unspecified points (string length unit for non-ASCII, order of different objects, tail, float indices, empty separators, ...) are not judged, floating-point results within relative 1e-12, member order of records synthesised by entries/indexed/fold/zip/cross not compared. non-trivial = at least one input was judged (expected value or expected nothing). C04.pools: every function signature called directly with literal arguments from wide per-kind pools (harness/src/pools.rs: 77 numbers incl. 1e-300, 2^53+-1, 2^63, 2^64-1; 58 strings incl. regex metacharacters and 65-byte strings with a common 64-byte prefix; 67 patterns; lists of 21, 33 and 40 elements; objects that differ in member order; lambda bodies that return nothing for some elements), the whole product when it is below the cap (1500 quick, 60000 thorough per signature), a seeded sample otherwise; same oracle. C04.negation: != is the negation of = (and symmetric) on all pairs of a value pool, also where the value of = itself is left open; the same for \"=\" / \"!=\". C04.nas_sort: the number-as-string sort and its three aliases on up to 160 elements whose keys come from 16 value classes with several spellings each; oracle: stable sort by exact decimal value, elements without a key first (the documented example)".into();
     ctx.assumptions = vec!["the reference evaluator (harness/src/eval.rs) states the documentation correctly; a disagreement is first treated as a possible harness error".into()];
     C04Eval.run(ctx);
+    run_pools(ctx);
+    run_negation(ctx);
+    crate::p07::C07NasSort.run(ctx);
 }
 
 pub fn checks() -> Vec<Box<dyn DynCheck>> {
-    vec![Box::new(C04Eval)]
+    vec![Box::new(C04Eval), Box::new(C04Pools), Box::new(crate::p07::C07NasSort)]
 }
